@@ -58,7 +58,7 @@ inductive Ev where
     finished -/
 inductive GEv where
   | gstart (t : Nat) (sequential : Bool)
-  | gfin (t : Nat)
+  | gfin (t : Nat) (sequential : Bool)
   deriving DecidableEq, Repr
 
 structure St where
@@ -185,7 +185,7 @@ def step (s : St) : Op → Option St
   | .finish r =>
     match s.inflight with
     | some (e, _) => some { s with inflight := none, fs := finishFlow s.fs e.idx r, log := .fin e.ticket :: s.log,
-                                     glog := .gfin e.ticket :: s.glog }
+                                     glog := .gfin e.ticket true :: s.glog }
     | none => none
   | .edit i => some { s with fs := editFlow s.fs i }
   | .setopt b => some { s with seq := b }
@@ -196,7 +196,7 @@ def step (s : St) : Op → Option St
   | .bfinish t r =>
     match s.bg.find? (fun p => p.1.ticket == t) with
     | some p => some { s with bg := s.bg.filter (fun q => !(q.1.ticket == t)), fs := finishFlow s.fs p.1.idx r,
-                              glog := .gfin t :: s.glog }
+                              glog := .gfin t false :: s.glog }
     | none => none
 
 def run (s : St) : List Op → Option St
@@ -275,8 +275,9 @@ def seqStatus : List GEv → Option (Option Nat)
     match seqStatus rest, e with
     | some none, .gstart t true => some (some t)
     | some none, .gstart _ false => some none
-    | some (some t), .gfin t' => if t = t' then some none else some (some t)
-    | some none, .gfin _ => some none
+    | some (some t), .gfin t' true => if t = t' then some none else none
+    | some (some t), .gfin _ false => some (some t)         -- a background replay ends: no effect
+    | some none, .gfin _ false => some none
     | _, _ => none
 
 def gstartTickets : List GEv → List Nat
@@ -286,8 +287,11 @@ def gstartTickets : List GEv → List Nat
 
 def gfinTickets : List GEv → List Nat
   | [] => []
-  | .gfin t :: rest => t :: gfinTickets rest
+  | .gfin t _ :: rest => t :: gfinTickets rest
   | _ :: rest => gfinTickets rest
+
+/-- the ticket of the replay the loop is awaiting -/
+def openTicket (s : St) : Option Nat := s.inflight.map (·.1.ticket)
 
 def replayable (a : Attr) : Bool :=
   !a.live && !a.intercepted && a.isHttp && a.hasReq && a.hasContent && !a.ws
